@@ -100,12 +100,16 @@ func (pdb *PebbleKV) View(u func(it kvi.KVIterator) error) error {
 	return err
 }
 
+// pebbleTransaction collects the writes of one Update in an indexed batch:
+// reads see the batch's own writes, and nothing reaches the store unless the
+// batch is committed
 type pebbleTransaction struct {
-	db *pebble.DB
+	db    *pebble.DB
+	batch *pebble.Batch
 }
 
 func (ptx pebbleTransaction) HasKey(id []byte) bool {
-	_, c, err := ptx.db.Get(id)
+	_, c, err := ptx.batch.Get(id)
 	if err != nil {
 		return false
 	}
@@ -114,7 +118,7 @@ func (ptx pebbleTransaction) HasKey(id []byte) bool {
 }
 
 func (ptx pebbleTransaction) Get(id []byte) ([]byte, error) {
-	v, c, err := ptx.db.Get(id)
+	v, c, err := ptx.batch.Get(id)
 	if err != nil {
 		return nil, err
 	}
@@ -124,16 +128,16 @@ func (ptx pebbleTransaction) Get(id []byte) ([]byte, error) {
 }
 
 func (ptx pebbleTransaction) Set(id []byte, val []byte) error {
-	return ptx.db.Set(id, val, nil)
+	return ptx.batch.Set(id, val, nil)
 }
 
 // Delete removes key `id` from the kv store
 func (ptx pebbleTransaction) Delete(id []byte) error {
-	return ptx.db.Delete(id, nil)
+	return ptx.batch.Delete(id, nil)
 }
 
 func (ptx pebbleTransaction) View(u func(it kvi.KVIterator) error) error {
-	it := ptx.db.NewIter(&pebble.IterOptions{})
+	it := ptx.batch.NewIter(&pebble.IterOptions{})
 	pit := &pebbleIterator{ptx.db, it, true, nil, nil}
 	err := u(pit)
 	it.Close()
@@ -212,11 +216,19 @@ func (pit *pebbleIterator) Valid() bool {
 	return pit.iter.Valid()
 }
 
-// Update runs an alteration transaction of the kvstore. Pebble doesn't
-// actually provide transactions, so this is just filling in as a wrapper function
+// Update runs an alteration transaction of the kvstore. The writes are kept
+// in an indexed batch and applied only if the callback succeeds
 func (pdb *PebbleKV) Update(u func(tx kvi.KVTransaction) error) error {
-	ptx := pebbleTransaction{pdb.db}
-	return u(ptx)
+	batch := pdb.db.NewIndexedBatch()
+	ptx := pebbleTransaction{pdb.db, batch}
+	err := u(ptx)
+	if err != nil {
+		batch.Close()
+		return err
+	}
+	err = batch.Commit(nil)
+	batch.Close()
+	return err
 }
 
 type pebbleBulkWrite struct {
